@@ -47,6 +47,17 @@ def handle (ws : List String) : String :=
     let ann := (Seata.Props.C19.announce resources).map fun a =>
       match a with | .tm => "TM" | .rm r => s!"RM({r})"
     s!"announce={",".intercalate ann} begin=ok phase2={if point == "between-phases" then "ok" else "n/a"}"
+  | "waitx" :: p :: xid :: ticks =>
+    -- a request that waits under a policy: every further token is the registry at one tick, `-` for empty or
+    -- `id@addr@o|c` joined by commas
+    let parseSess (t : String) : Option Sess :=
+      match t.splitOn "@" with
+      | [id, addr, fl] => id.toNat?.map fun i => { id := i, addr := addr, closed := fl == "c" }
+      | _ => none
+    let parseTick (t : String) : Option (List Sess) := if t == "-" then some [] else (t.splitOn ",").mapM parseSess
+    match policyOf p, ticks.mapM parseTick with
+    | some q, some regs => showSet (waitAllowed q (if xid == "-" then "" else xid) regs)
+    | _, _ => "bad-op"
   | ["wait", n] =>
     -- a request waiting while no session is open: n closed sessions appear in the registry, later an open one
     let dead := (List.range (n.toNat?.getD 0)).map fun i => ({ id := 7000 + i, addr := "a:1", closed := true } : Sess)
